@@ -280,6 +280,30 @@ void add_type(Node *node) {
       // Both operands have the same struct or union type, which
       // is the type of the result; no arithmetic conversion applies.
       node->ty = node->then->ty;
+    } else if (node->then->ty->base || node->els->ty->base) {
+      // Pointer operands (C11 6.5.15p6): a null pointer constant takes
+      // the type of the other operand; a pointer to void makes the
+      // result a pointer to void; arrays and functions decay.
+      Type *t1 = node->then->ty;
+      Type *t2 = node->els->ty;
+      if (t1->kind == TY_FUNC)
+        t1 = pointer_to(t1);
+      if (t2->kind == TY_FUNC)
+        t2 = pointer_to(t2);
+      Type *ty;
+      if (!t2->base || (t1->base && is_null_pointer_constant(node->els)))
+        ty = t1;
+      else if (!t1->base || is_null_pointer_constant(node->then))
+        ty = t2;
+      else if (t2->base->kind == TY_VOID)
+        ty = t2;
+      else
+        ty = t1;
+      if (ty->kind != TY_PTR)
+        ty = pointer_to(ty->base);
+      node->then = new_cast(node->then, ty);
+      node->els = new_cast(node->els, ty);
+      node->ty = ty;
     } else {
       usual_arith_conv(&node->then, &node->els);
       node->ty = node->then->ty;
